@@ -76,6 +76,29 @@ def run(ctx):
             continue
         ms = np.asarray(fp.pvt_props["m-scaled"], float)
         ev += 1
+        mraw_fp = np.asarray(fp.pvt_props["pseudopressure"], float)
+        if not np.allclose(mraw_fp, want, rtol=1e-10, atol=1e-12 * abs(want[-1])):
+            bad("the pseudopressure column built by FlowPropertiesTwoPhase.from_table is not the trapezoid integral of the documented total mobility", inp,
+                dict(got=[float(x) for x in mraw_fp[:4]], want=[float(x) for x in want[:4]]))
+        # the documented mobility is a function of pressure and of the table's oil saturation only: neither the water-saturation
+        # argument (a sensitivity run with another Sw on the same table) nor the ORDER in which the caller's density mapping lists
+        # its three keys may change the integral
+        import pandas as pd
+        rho_forms = (("keys in reverse order", {q: rho[q] for q in ("rho_w0", "rho_g0", "rho_o0")}), ("keys gas, oil, water", {q: rho[q] for q in ("rho_g0", "rho_o0", "rho_w0")}),
+                     ("pandas Series sorted by label", pd.Series(rho).sort_index()))
+        for how, sw_x, rho_x in [("Sw = 0", 0.0, rho), (f"Sw raised by 0.15", sw + 0.15, rho), ("Sw = 0.45", 0.45, rho)] + [("density mapping: " + h_, sw, r_) for h_, r_ in rho_forms[k % 3:k % 3 + 1]]:
+            try:
+                with warnings.catch_warnings():
+                    warnings.simplefilter("ignore")
+                    fpx = FlowPropertiesTwoPhase.from_table(tb2, krt, rho_x, 0.1, sw_x, p_i)
+                mx = np.asarray(fpx.pvt_props["pseudopressure"], float)
+            except Exception as e:  # noqa: BLE001
+                bad("FlowPropertiesTwoPhase.from_table fails on an admissible table", dict(**inp, variation=how), repr(e)[:200])
+                continue
+            ev += 1
+            if not np.allclose(mx, want, rtol=1e-10, atol=1e-12 * abs(want[-1])):
+                bad("the pseudopressure built by FlowPropertiesTwoPhase.from_table is not the integral of the documented total mobility (it changes with the water-saturation argument / "
+                    "with the order of the keys of the density mapping)", dict(**inp, variation=how), dict(got=[float(x) for x in mx[:4]], want=[float(x) for x in want[:4]], at_end=[float(mx[-1]), float(want[-1])]))
         # the same table as a DataFrame whose integer index labels are not 0..n-1 in row order (a lab table listed from high
         # to low pressure and then sorted, or concatenated pieces): rows are what they are, labels must not matter
         if k % 2 == 0:
